@@ -29,6 +29,7 @@ def runs(tier):
         ("edge orientation (source/target as handed to add_edge) reversed / alternating: G(0..4) x A3, G(5) x A2", [["--n", n, "--alpha", "A3", "--orient", o] for n in range(2, 5) for o in (1, 2)] + [["--n", 5, "--alpha", "A2", "--orient", o] for o in (1, 2)]),
         ("G(6) x U, double", [["--n", 6, "--alpha", "U"]]),
         ("edge insertion order reversed / interleaved: G(4) x A3, G(5) x A2", [["--n", 4, "--alpha", "A3", "--eorder", o] for o in (1, 2)] + [["--n", 5, "--alpha", "A2", "--eorder", o] for o in (1, 2)]),
+        ("positional output iterator (begin() of a pre-sized vector instead of a back_inserter): G(4) x A3, G(5) x A2, blob grammar x M2", [["--n", 4, "--alpha", "A3", "--outiter", 1], ["--n", 5, "--alpha", "A2", "--outiter", 1], ["--grammar", "blobs:3:2", "--alpha", "M2", "--outiter", 1]]),
         ("G(5) with at most 7 edges x PM2 (every assignment of the distinct weights 2^0..2^(m-1): unique optimum, no ties that could mask a lost candidate)", [["--n", 5, "--alpha", "PM2", "--max-m", 7]]),
         ("weights with 26 significant bits (2^25 + {1,2,3}: competing cycles differ by units at magnitude 1e8): G(4) x B3 double and int, G(5) x B2 double",
          [["--n", 4, "--alpha", "B3"], ["--n", 4, "--alpha", "B3", "--wtype", "int"], ["--n", 5, "--alpha", "B2"]]),
